@@ -442,3 +442,198 @@ reg(
                 "assignment and read position."),
     level_note="The reference interpreter is trusted.",
 )
+
+
+# ---------------------------------------------------------------------------------------------
+# sanitizer passes (thorough tier only)
+# ---------------------------------------------------------------------------------------------
+import glob as _glob
+import json as _json
+import os as _os
+import re as _re
+import shutil as _shutil
+import subprocess as _subprocess
+
+TRIPLE = "x86_64-unknown-linux-gnu"
+
+
+def _add_violation(merged, key, what, replay):
+    merged["violations"].append({"key": key, "what": what, "replay": replay})
+    merged["violation_counts"][key] = merged["violation_counts"].get(key, 0) + 1
+
+
+def _first_repo_frame(block):
+    for line in block.splitlines():
+        m = _re.search(r"(/repo/[^ :]+):(\d+)", line)
+        if m:
+            return m.group(1)
+    for line in block.splitlines():
+        m = _re.search(r"#\d+ (\S+)", line)
+        if m:
+            return m.group(1)
+    return "?"
+
+
+def sanitizer_pass(cid, workload_check, kind, seed, jobs, rundir, merged, notes, inconclusive, api, extra_args=(), tier="quick"):
+    """Build the harness with a compiler sanitizer and run `workload_check`'s workload under it.
+    kind: 'address' | 'thread'. Reports are counted from the sanitizer's log files."""
+    tdir = _os.path.join(api["HARNESS"], f"target-{kind}")
+    flags = "-Zsanitizer=thread" if kind == "thread" else "-Zsanitizer=address -Cforce-frame-pointers=yes"
+    extra = ["--target", TRIPLE] + (["-Zbuild-std"] if kind == "thread" else [])
+    built = api["build"]("checked", extra_env={"RUSTFLAGS": flags}, target_dir=tdir, toolchain="nightly", extra_args=extra)
+    if built is None:
+        inconclusive.append(f"{kind} sanitizer build failed")
+        return
+    binpath = api["binary"](tdir, "checked", TRIPLE)
+    logbase = _os.path.join(rundir, f"{kind}san")
+    env = dict(api["ENV"], LQVERIF_NO_RLIMIT="1")
+    if kind == "thread":
+        env["TSAN_OPTIONS"] = f"halt_on_error=0 exitcode=0 log_path={logbase}"
+    else:
+        env["ASAN_OPTIONS"] = f"halt_on_error=0 detect_leaks=0 exitcode=0 log_path={logbase}"
+    results = api["run_workers"](binpath, workload_check, tier, seed, jobs, rundir, f"{kind}san", extra_args=extra_args, env=env, timeout=3600)
+    m = api["merge"](results)
+    for r in m["dead"]:
+        if r.get("hang"):
+            inconclusive.append(f"{kind} sanitizer worker {r['shard']} timed out")
+        else:
+            # ASan with recover disabled aborts on the first report: that is a report
+            _add_violation(merged, f"{kind}-sanitizer:worker-died", f"worker died under the {kind} sanitizer (rc={r['rc']}): {r.get('stderr', '')[-1500:]}",
+                           {"check": cid, "kind": "progress", "progress": r.get("progress", ""), "sanitizer": kind})
+    blocks = []
+    for path in _glob.glob(logbase + ".*"):
+        text = open(path, errors="replace").read()
+        for b in _re.split(r"(?m)^={10,}$", text):
+            if "WARNING: ThreadSanitizer" in b or "ERROR: AddressSanitizer" in b:
+                blocks.append(b.strip())
+    by_site = {}
+    for b in blocks:
+        by_site.setdefault(_first_repo_frame(b), []).append(b)
+    for site, bs in by_site.items():
+        _add_violation(merged, f"{kind}-sanitizer:{site}", f"{len(bs)} {kind} sanitizer report(s), first in-repo frame {site}: {bs[0][:1500]}",
+                       {"check": cid, "kind": "sanitizer-report", "sanitizer": kind, "report": bs[0][:6000]})
+    merged["counters"][f"{kind}-sanitizer:executions"] = m["evaluations"]
+    merged["counters"][f"{kind}-sanitizer:reports"] = len(blocks)
+    for k, v in m["counters"].items():
+        if k.startswith(("calls", "store:", "rounds:")):
+            merged["counters"][f"{kind}-sanitizer:{k}"] = v
+    for k, c in m["violation_counts"].items():
+        for v in m["violations"]:
+            if v["key"] == k:
+                v["replay"]["sanitizer_build"] = kind
+        merged["violation_counts"][k] = merged["violation_counts"].get(k, 0) + c
+    merged["violations"] += m["violations"]
+    notes.append(f"{kind} sanitizer: {m['evaluations']} executions of the {workload_check} {tier} workload, {len(blocks)} report(s)")
+    if not _os.environ.get("VERIF_KEEP_SANITIZER_BUILDS"):
+        _shutil.rmtree(tdir, ignore_errors=True)
+
+
+def miri_pass(cid, seeds, args, rundir, merged, notes, inconclusive, api):
+    """Run a reduced scenario of `cid` under Miri with several scheduler seeds in parallel."""
+    tdir = _os.path.join(api["HARNESS"], "target-miri")
+    env = dict(api["ENV"], CARGO_TARGET_DIR=tdir)
+    # build once (serialises on the cargo lock otherwise)
+    b = _subprocess.run(["cargo", "+nightly", "miri", "run", "--bin", "lqverif", "--", "help-nothing"], cwd=api["HARNESS"],
+                        env=dict(env, MIRIFLAGS="-Zmiri-disable-isolation"), stdout=_subprocess.PIPE, stderr=_subprocess.STDOUT, text=True)
+    if "unknown check" not in b.stdout and "usage" not in b.stdout:
+        inconclusive.append("Miri build/run failed: " + b.stdout[-600:])
+        return
+    procs = []
+    for s in seeds:
+        out = _os.path.join(rundir, f"miri-{s}.json")
+        e = dict(env, MIRIFLAGS=f"-Zmiri-disable-isolation -Zmiri-ignore-leaks -Zmiri-seed={s}")
+        cmd = ["cargo", "+nightly", "miri", "run", "--bin", "lqverif", "--", cid.lower(), "--tier", "quick", "--seed", str(s), "--out", out] + list(args)
+        procs.append((s, out, _subprocess.Popen(cmd, cwd=api["HARNESS"], env=e, stdout=_subprocess.PIPE, stderr=_subprocess.STDOUT, text=True)))
+    done = 0
+    calls = 0
+    for s, out, p in procs:
+        try:
+            text, _ = p.communicate(timeout=3000)
+        except _subprocess.TimeoutExpired:
+            p.kill()
+            inconclusive.append(f"Miri seed {s} timed out")
+            continue
+        if "Undefined Behavior" in text or "data race" in text.lower() or "error: unsupported" in text:
+            first = next((l for l in text.splitlines() if l.startswith("error")), "error")
+            if "unsupported" in first:
+                inconclusive.append(f"Miri seed {s}: {first}")
+                continue
+            _add_violation(merged, "miri:" + first[:80], f"Miri (seed {s}) reported: {text[-3000:]}", {"check": cid, "kind": "miri-report", "seed": s, "report": text[-6000:]})
+            continue
+        if p.returncode != 0 or not _os.path.exists(out):
+            inconclusive.append(f"Miri seed {s} exited with {p.returncode}: {text[-400:]}")
+            continue
+        j = _json.load(open(out))
+        done += 1
+        calls += j["counters"].get("calls", 0)
+        for v in j["violations"]:
+            v["replay"]["under"] = "miri"
+            merged["violations"].append(v)
+        for k, c in j["violation_counts"].items():
+            merged["violation_counts"][k] = merged["violation_counts"].get(k, 0) + c
+    merged["counters"]["miri:seeds-completed"] = done
+    merged["counters"]["miri:calls"] = calls
+    notes.append(f"Miri: {done}/{len(seeds)} seeds completed, {calls} calls interpreted, arguments {list(args)}")
+    if not _os.environ.get("VERIF_KEEP_SANITIZER_BUILDS"):
+        _shutil.rmtree(tdir, ignore_errors=True)
+
+
+def valgrind_pass(cid, workload_check, seed, rundir, merged, notes, inconclusive, api, shards=(0, 1), of=256):
+    tdir = api["build"]("release")
+    if tdir is None:
+        inconclusive.append("release build for valgrind failed")
+        return
+    binpath = api["binary"](tdir, "release")
+    procs = []
+    for i in shards:
+        out = _os.path.join(rundir, f"valgrind-{i}.json")
+        cmd = ["valgrind", "-q", "--error-exitcode=99", "--errors-for-leak-kinds=none", binpath, workload_check.lower(), "--tier", "quick", "--seed", str(seed), "--shard", f"{i}/{of}", "--out", out]
+        procs.append((i, out, _subprocess.Popen(cmd, cwd=api["ROOT"], env=dict(api["ENV"], LQVERIF_NO_RLIMIT="1"), stdout=_subprocess.PIPE, stderr=_subprocess.STDOUT, text=True)))
+    total = 0
+    for i, out, p in procs:
+        try:
+            text, _ = p.communicate(timeout=3000)
+        except _subprocess.TimeoutExpired:
+            p.kill()
+            inconclusive.append(f"valgrind shard {i} timed out")
+            continue
+        if p.returncode == 99:
+            _add_violation(merged, "valgrind:memcheck-error", f"valgrind memcheck reported errors: {text[-2500:]}", {"check": cid, "kind": "valgrind-report", "report": text[-6000:]})
+        elif p.returncode != 0 or not _os.path.exists(out):
+            inconclusive.append(f"valgrind shard {i} exited with {p.returncode}: {text[-300:]}")
+        else:
+            total += _json.load(open(out))["evaluations"]
+    merged["counters"]["valgrind:executions"] = total
+    notes.append(f"valgrind memcheck (release binary): {total} executions, shards {list(shards)} of {of}")
+
+
+def c20_post(cid, tier, seed, jobs, rundir, merged, notes, inconclusive, api):
+    if tier != "thorough":
+        return
+    sanitizer_pass(cid, "c20", "thread", seed, min(jobs, 8), rundir, merged, notes, inconclusive, api, extra_args=["--rounds", "800"])
+    miri_pass(cid, list(range(8)), ["--rounds", "1", "--max-threads", "2", "--max-calls", "3"], rundir, merged, notes, inconclusive, api)
+
+
+def c02_post(cid, tier, seed, jobs, rundir, merged, notes, inconclusive, api):
+    if tier != "thorough":
+        return
+    sanitizer_pass(cid, "c02", "address", seed, jobs, rundir, merged, notes, inconclusive, api)
+    valgrind_pass(cid, "c02", seed, rundir, merged, notes, inconclusive, api, shards=(0, 1, 2, 3), of=128)
+
+
+def c01_post(cid, tier, seed, jobs, rundir, merged, notes, inconclusive, api):
+    if tier != "thorough":
+        return
+    sanitizer_pass(cid, "c01", "address", seed, jobs, rundir, merged, notes, inconclusive, api)
+
+
+def c12_post(cid, tier, seed, jobs, rundir, merged, notes, inconclusive, api):
+    if tier != "thorough":
+        return
+    sanitizer_pass(cid, "c12", "address", seed, jobs, rundir, merged, notes, inconclusive, api)
+
+
+CHECKS["C20"]["post"] = c20_post
+CHECKS["C02"]["post"] = c02_post
+CHECKS["C01"]["post"] = c01_post
+CHECKS["C12"]["post"] = c12_post
